@@ -50,9 +50,18 @@ def check(ctx):
                f".str attributes are taken from {mods}, not numpy.strings: functions of the same name in a sibling module (numpy.char) "
                f"differ (its comparison functions reject StringDType arrays), so the proxy no longer returns what the module function returns",
                clause="the Vector .dt, .re and .str proxies return the same results as the module functions")
-        sattrs = [(n.targets[0].attr, n.value.args[0]) for n in body_nodes(sinit.node) if isinstance(n, ast.Assign)
-                  and isinstance(n.targets[0], ast.Attribute) and isinstance(n.value, ast.Call) and n.value.args
-                  and isinstance(n.value.args[0], ast.Constant)]
+        sattrs = []
+        for n in body_nodes(sinit.node):
+            if not (isinstance(n, ast.Assign) and isinstance(n.targets[0], ast.Attribute) and isinstance(n.value, ast.Call)):
+                continue
+            if n.value.args and isinstance(n.value.args[0], ast.Constant):
+                sattrs.append((n.targets[0].attr, n.value.args[0]))          # self.add = wrap("add")
+                continue
+            # the wrapper written out: ... getattr(np.strings, "add", not_implemented) ...
+            gs = [c for c in ast.walk(n.value) if isinstance(c, ast.Call) and isinstance(c.func, ast.Name) and c.func.id == "getattr"
+                  and len(c.args) >= 2 and isinstance(c.args[1], ast.Constant)]
+            if gs:
+                sattrs.append((n.targets[0].attr, gs[0].args[1]))
         bad = [(a, v.value) for a, v in sattrs if a != v.value]
         ctx.ob("FWD-registry", sinit, f"{len(sattrs)} .str attributes named like the function they wrap", sinit.node, not bad and bool(sattrs),
                "self.<name> = wrap('<name>') throughout" if not bad else f"attributes bound to another function's name: {bad[:4]}",
